@@ -297,14 +297,15 @@ def classify(prop, findings, known):
 MC_STAT = re.compile(r'^(\d+) states generated, (\d+) distinct states found, (\d+) states left')
 
 
-def tlc_model(module, cfg, workdir, workers=8, timeout=1500, xmx="8g", want_vectors=True):
+def tlc_model(module, cfg, workdir, workers=8, timeout=1500, xmx="8g", want_vectors=True, extra_args=()):
     """exhaustive TLC run of a bounded model; returns states, transitions, vectors (op scripts), coverage"""
     os.makedirs(workdir, exist_ok=True)
     jt = os.path.join(workdir, "jt")
     os.makedirs(jt, exist_ok=True)
     env = dict(os.environ, JAVA_TOOL_OPTIONS="-Xss1g -Xmx%s -Djava.io.tmpdir=%s" % (xmx, jt))
-    cmd = ["timeout", str(timeout), "tlc", "-workers", str(workers), "-metadir", os.path.join(workdir, "md"), "-cleanup",
+    cmd = ["timeout", str(timeout), "tlc", "-workers", str(workers)] + list(extra_args) + ["-metadir", os.path.join(workdir, "md"), "-cleanup",
            "-noGenerateSpecTE", "-config", cfg, module]
+    simulate = "-simulate" in extra_args
     t = time.time()
     vecf = os.path.join(workdir, "vectors.txt")
     with open(os.path.join(workdir, "tlc.out"), "w") as outf:
@@ -326,11 +327,18 @@ def tlc_model(module, cfg, workdir, workers=8, timeout=1500, xmx="8g", want_vect
                     gen, dist = int(m.group(1)), int(m.group(2))
                 if "Model checking completed. No error has been found." in line:
                     ok = True
+                m2 = re.match(r"^The number of states generated: (\d+)", line)
+                if simulate and m2:
+                    gen = dist = int(m2.group(1))
+                    ok = True
                 if line.startswith("Error:"):
+                    ok = False
                     errors.append(line.strip())
         r.wait()
     shutil.rmtree(jt, ignore_errors=True)
     shutil.rmtree(os.path.join(workdir, "md"), ignore_errors=True)
+    if errors:
+        ok = False
     return {"ok": ok, "states": dist, "transitions": gen, "nvec": nvec, "vectors_file": vecf, "errors": errors,
             "wall_s": round(time.time() - t, 1), "module": module, "cfg": cfg}
 
@@ -346,6 +354,15 @@ def read_vectors(path, limit=None, seed=1):
                 vecs.append(json.loads(s.split("~~", 1)[1]))
             except Exception:
                 continue
+    if limit == -1:
+        # simulation: keep only histories that are not a proper prefix of another emitted history
+        keys = sorted({json.dumps(v, sort_keys=True)[:-1] for v in vecs})
+        keep = []
+        for i, k in enumerate(keys):
+            if i + 1 < len(keys) and keys[i + 1].startswith(k + ","):
+                continue
+            keep.append(json.loads(k + "]"))
+        return keep
     if limit is not None and len(vecs) > limit:
         # keep the core first: single-parser histories under the default allowed set, shortest first;
         # fill the rest of the budget with a seeded random sample of the cross-parser / filtered ones
